@@ -348,7 +348,7 @@ PROPS = {
         "inverse for every even size; documented byte placement; exposed shards have exactly shard_bytes bytes. Direct oracle: size sb vs per-slot "
         "2-byte runs on the implementation for every even size in the sweep, poison hook on.",
         "cases = one per (even shard size, configuration): full-size round trip + per-slot 2-byte round trips; non-trivial = all",
-        pre_lean=gen_c04, technique=TECH_TRB,
+        pre_lean=gen_c04, technique=TECH_TRB, profiles=["release", "dev"],
         design_ref="DESIGN.md §6 C04",
     ),
     "C05": P(
